@@ -31,7 +31,7 @@ META = {
                    'has exactly one row per simulated (and construction) year in order, and every table cell equals the series element '
                    'of that year (index year x time steps per year, or year).',
     'bounds': {t: {'(kind, L, T, K, variant)': [list(c[:4]) + [c[4]] for c in CONFIGS[t]]} for t in CONFIGS},
-    'outside': ['rounding performed by format() to the displayed precision (trusted: CPython float.__format__)', 'rich / HTML output', 'AGS / SUTRA / S-DAC-GT / add-on writers',
+    'outside': ['rounding performed by format() to the displayed precision (trusted: CPython float.__format__)', 'rich / HTML output', 'AGS / SUTRA / add-on writers (the S-DAC-GT section writer is inside)',
                 'lines whose label is not in the oracle table are counted as not covered (listed in the evidence), not as held', 'lifetimes beyond the bound'],
     'assumptions': ['the unit-conversion pass before printing is the subject of C06 and is skipped here (all quantities are in their current units)'],
     'stubs': ['Outputs.open -> in-memory capture; Outputs.np -> NPShim (exact max/min); print_outputs_rich -> no-op; Outputs._convert_units -> no-op'],
